@@ -162,6 +162,37 @@ def directed_cases():
     return out
 
 
+def scenario_cases(rng, chk, thorough):
+    """every scenario of the C18 table (the model's `list` / `dump NAME`) as a C20 sequence: the resource counts after
+    every call of the sequences that reach the rarely taken paths (I/O on closed sockets, the datagram echo, INI getters on
+    parsed files, scripted system-call failures).  Each is run clean and with an allocation failure (once / from k on)
+    injected right after the library start; the scenario's own clean-up has to end at all zeros, whatever failed."""
+    rc, names, err = resfam.run_m("list\n")
+    if rc != 0 or not names:
+        raise pv.BuildError("the model driver does not answer `list`: " + err[-300:])
+    names = [n for n in names[0].split() if thorough or not n.startswith("long_")]
+    rc, dumps, err = resfam.run_m("".join("dump %s\n" % n for n in names))
+    out = []
+    for n, d in zip(names, dumps):
+        lines = d.split(";")
+        if n in F5_SCENARIOS:
+            continue            # finding F5: exercised once, by the directed sequence above
+        sweep = ["call %s %d" % (f, i) for i in range(24) for f in DESTRUCTORS] if thorough else []
+        out.append(["begin"] + ["call " + l for l in lines] + ["end"])
+        chk.bump("scenario-sequence")
+        for mode in (("once", "from") if not thorough else ("once", "from", "once", "from", "once")):
+            k = rng.randrange(1, 14 if n.startswith(("ini", "cross", "long")) else 8)
+            at = 1 + rng.randrange(max(1, min(3, len(lines) - 1)))
+            seq = ["call " + l for l in lines]
+            seq.insert(at, "fail %s %d" % (mode, k))
+            out.append(["begin"] + seq + ["fail none 0"] + sweep + ["end"])
+            chk.bump("scenario-sequence:inject")
+    return out
+
+
+F5_SCENARIOS = ("shm_two_smaller", "shmbuf_two_diff")
+
+
 def spec_view(op, line):
     return line
 
@@ -204,7 +235,7 @@ def run(chk):
         fam = diffrun.Family("res", exe, spec_view=spec_view, env={"PVRES_DIR": scratch}, timeout=600)
         thorough = chk.tier == "thorough"
         rng = chk.rng
-        cases = pv.load_corpus("C20") + directed_cases()
+        cases = pv.load_corpus("C20") + directed_cases() + scenario_cases(rng, chk, thorough)
         nrand = 1200 if thorough else 220
         lengths = [30, 80, 200, 400] if thorough else [20, 60, 120]
         cases += [gen_case(rng, rng.choice(lengths), chk) for _ in range(nrand)]
